@@ -19,6 +19,9 @@ inductive Kind where
   | ackPerm        -- not a message: the permission to raise the ghost `saslAcked` (CAP ACK)
   | connPerm       -- not a message: the permission to open a new socket at once (`reconnect(wait=False)`)
   | authPerm       -- not a message: the permission to raise `sasl_authenticated` (903)
+  | side           -- JOINs (normal queue only) and driver events: never on the fast queue
+  | joinPerm       -- not a message: the permission to queue the JOINs (Owner.do376/do377/do422)
+  | storePerm      -- not a message: the permission to store an STS policy (CAP LS / CAP NEW)
 deriving DecidableEq, Repr
 
 def Out.kind : Out → Kind
@@ -34,7 +37,7 @@ def Out.kind : Out → Kind
   | .authOpaque => .payload
   | .authAbort => .payload
   | .pong _ => .pong
-  | _ => .pong         -- join / driver events never enter the fast queue
+  | _ => .side         -- join / driver events never enter the fast queue
 
 def isSaslState (f : Fsm) : Bool := f = .INIT_SASL || f = .CONNECTED_SASL
 
@@ -57,6 +60,11 @@ structure Abs where
   policies : List (Str × Str)   -- the stored STS policies (ircdb.networks)
   forced : Bool      -- driver.currentServer.force_tls_verification
   sock : Nat         -- sockets opened so far
+  sent : Bool        -- sasl_response_sent
+  joinQ : Bool       -- a JOIN of Owner.do376 waits on the normal queue
+  conn : Bool        -- driver.connected
+  host : Str         -- driver.currentServer.hostname
+  bad : Bool         -- ghost `joinBad`
 deriving DecidableEq, Repr
 
 def isReconnect : Out → Bool
@@ -78,7 +86,9 @@ def α (s : St) : Abs :=
     epoch := s.epoch, ackSasl := s.ack.contains sSasl, kinds := s.fastq.map Out.kind,
     aborts := (s.ev.filter isReconnect).length, acked := s.saslAcked,
     slowOk := s.slowq.all isSide, evOk := s.ev.all isSide, wantedOk := s.wanted.all isWanted,
-    policies := s.db.policies, forced := s.drv.current.forced, sock := s.drv.sock }
+    policies := s.db.policies, forced := s.drv.current.forced, sock := s.drv.sock,
+    sent := s.saslSent, joinQ := s.slowq.contains .join, conn := s.drv.connected, host := s.drv.current.host,
+    bad := s.joinBad }
 
 /-- `secure_connection` of Irc._onCapSts, on the abstraction -/
 def aSecure (cfg : Cfg) (a : Abs) : Bool := a.forced || (cfg.ssl && cfg.certValidation)
@@ -109,8 +119,19 @@ inductive Move (cfg : Cfg) (K : Kind → Bool) : Abs → Abs → Prop
       (hm : missing cfg a = false) : Move cfg K a { a with fsm := .CONNECTED }
   | setAfterConnect (a : Abs) (h : a.fsm = .CONNECTED) (hm : missing cfg a = false) : Move cfg K a { a with afterConnect := true }
   | shutdown (a : Abs) : Move cfg K a { a with fsm := .SHUTTING_DOWN }
-  /-- do903: the server says the authentication succeeded; honoured only inside a SASL state -/
-  | authOk (a : Abs) (h : isSaslState a.fsm = true) (hK : K .authPerm = true) : Move cfg K a { a with saslAuth := true }
+  /-- do903: the server says the authentication succeeded; honoured only inside a SASL state, after a
+  complete response of ours for the current mechanism -/
+  | authOk (a : Abs) (h : isSaslState a.fsm = true) (hs : a.sent = true) (hK : K .authPerm = true) :
+      Move cfg K a { a with saslAuth := true }
+  /-- sendSaslString completed: only a handler that may send credentials, inside a SASL state -/
+  | respond (a : Abs) (h : isSaslState a.fsm = true) (hK : K .payload = true) : Move cfg K a { a with sent := true }
+  /-- tryNextSaslMechanism starts another mechanism -/
+  | unsent (a : Abs) : Move cfg K a { a with sent := false }
+  /-- Owner.do376/do377/do422 queue the JOINs: after Irc.do376 completed, or after it dropped the connection -/
+  | joinQueue (a : Abs) (h : a.afterConnect = true ∨ a.conn = false ∨ cfg.realDriver = false) (hK : K .joinPerm = true) :
+      Move cfg K a { a with joinQ := true }
+  /-- SocketDriver.reconnect closes the current socket -/
+  | disc (a : Abs) : Move cfg K a { a with conn := false }
   /-- a CAP ACK leaves `sasl` acknowledged -/
   | ackGain (a : Abs) (hK : K .ackPerm = true) : Move cfg K a { a with ackSasl := true, acked := true }
   /-- CAP DEL removes `sasl` from the acknowledged set -/
@@ -120,15 +141,19 @@ inductive Move (cfg : Cfg) (K : Kind → Bool) : Abs → Abs → Prop
   | reset (a : Abs) (h : cfg.realDriver = true) :
       Move cfg K a { fsm := .INIT_CAP_NEGOTIATION, saslAuth := false, afterConnect := false, endCount := 0,
                      epoch := a.epoch + 1, ackSasl := false, kinds := connectKinds cfg, aborts := a.aborts,
-                     acked := false, slowOk := true, evOk := a.evOk, wantedOk := a.wantedOk,
-                     policies := a.policies, forced := a.forced, sock := a.sock }
+                     acked := false, slowOk := true, evOk := a.evOk, wantedOk := true,
+                     policies := a.policies, forced := a.forced, sock := a.sock,
+                     sent := false, joinQ := false, conn := a.conn, host := a.host, bad := a.bad }
   /-- Irc._onCapSts stores the policy: only on a connection it considers secure -/
-  | store (a : Abs) (h : aSecure cfg a = true) (ps : List (Str × Str)) : Move cfg K a { a with policies := ps }
+  | store (a : Abs) (h : aSecure cfg a = true) (ps : List (Str × Str)) (hK : K .storePerm = true) :
+      Move cfg K a { a with policies := ps }
   /-- ServersMixin._applyStsPolicy drops an expired policy -/
   | expire (a : Abs) (host : Str) : Move cfg K a { a with policies := dictDel a.policies host }
-  /-- SocketDriver.reconnect opens a socket to the next server -/
-  | conn (a : Abs) (f : Bool) (h : cfg.realDriver = true) (hK : K .connPerm = true) :
-      Move cfg K a { a with forced := f, sock := a.sock + 1 }
+  /-- SocketDriver.reconnect opens a socket to the next server: nothing of an earlier connection waits on
+  the normal queue; a server for whose host a policy is stored is connected to with forced verification -/
+  | conn (a : Abs) (f : Bool) (h : Str) (hr : cfg.realDriver = true) (hK : K .connPerm = true) (hj : a.joinQ = false)
+      (hp : (dictGet a.policies h).isSome = true → f = true ∨ (cfg.ssl && cfg.certValidation) = true) :
+      Move cfg K a { a with forced := f, sock := a.sock + 1, conn := true, host := h }
 
 inductive Moves (cfg : Cfg) (K : Kind → Bool) : Abs → Abs → Prop
   | refl (a : Abs) : Moves cfg K a a
@@ -159,14 +184,18 @@ theorem Move.mono {cfg : Cfg} {K K' : Kind → Bool} (hK : ∀ k, K k = true →
   case endMotd h hm => exact .endMotd _ h hm
   case setAfterConnect h hm => exact .setAfterConnect _ h hm
   case shutdown => exact .shutdown _
-  case authOk h hp => exact .authOk _ h (hK _ hp)
+  case authOk h hs hp => exact .authOk _ h hs (hK _ hp)
+  case respond h hp => exact .respond _ h (hK _ hp)
+  case unsent => exact .unsent _
+  case joinQueue h hp => exact .joinQueue _ h (hK _ hp)
+  case disc => exact .disc _
   case ackGain h => exact .ackGain _ (hK _ h)
   case ackLose => exact .ackLose _
   case abort => exact .abort _
   case reset h => exact .reset _ h
-  case store h ps => exact .store _ h ps
+  case store h ps hp => exact .store _ h ps (hK _ hp)
   case expire host => exact .expire _ host
-  case conn f h hp => exact .conn _ f h (hK _ hp)
+  case conn f h hr hp hj hpol => exact .conn _ f h hr (hK _ hp) hj hpol
 
 theorem Moves.mono {cfg : Cfg} {K K' : Kind → Bool} (hK : ∀ k, K k = true → K' k = true) {a b : Abs}
     (h : Moves cfg K a b) : Moves cfg K' a b := by
